@@ -21,7 +21,8 @@ def main():
     patch = os.path.join(src, 'patch%s.diff' % k)
     demo = os.path.join(src, 'demo%s.py' % k)
     meta = json.load(open(os.path.join(src, 'meta%s.json' % k)))
-    sid = '%s-%s' % (pid, k)
+    tag = sys.argv[sys.argv.index('--tag') + 1] if '--tag' in sys.argv else None
+    sid = '%s-%s-%s' % (pid, tag, k) if tag else '%s-%s' % (pid, k)
     out = os.path.join(ROOT, 'seeded', sid)
     os.makedirs(out, exist_ok=True)
     # 1. confirm in a scratch worktree
